@@ -1206,7 +1206,7 @@ class TmpStore:
         if not os.path.exists(targetpath):
             os.makedirs(targetpath)
 
-        targetname = self._getCleanFilename(oid, serial)
+        targetname = self._getCleanFilename(oid, serial, self.index[oid])
         rename_or_copy_blob(blobfilename, targetname, chmod=False)
 
     def loadBlob(self, oid, serial):
@@ -1216,7 +1216,13 @@ class TmpStore:
             raise Unsupported(
                 "Blobs are not supported by the underlying storage %r." %
                 self._storage)
-        filename = self._getCleanFilename(oid, serial)
+        # The file belongs to the record the index points to: a blob may be
+        # stored by several savepoints, and a rollback brings back the index
+        # (and with it the file) of the savepoint rolled back to.
+        pos = self.index.get(oid)
+        if pos is None:
+            return self._storage.loadBlob(oid, serial)
+        filename = self._getCleanFilename(oid, serial, pos)
         if not os.path.exists(filename):
             return self._storage.loadBlob(oid, serial)
         return filename
@@ -1236,11 +1242,11 @@ class TmpStore:
             self._blob_dir = blob_dir
         return blob_dir
 
-    def _getCleanFilename(self, oid, tid):
+    def _getCleanFilename(self, oid, tid, pos):
         return os.path.join(
             self._getBlobPath(),
-            "{}-{}{}".format(utils.oid_repr(oid), utils.tid_repr(tid),
-                             SAVEPOINT_SUFFIX)
+            "{}-{}-{}{}".format(utils.oid_repr(oid), utils.tid_repr(tid),
+                                pos, SAVEPOINT_SUFFIX)
         )
 
     def temporaryDirectory(self):
